@@ -54,3 +54,11 @@ META["C15"] = {
     "text": "Exploration with an exhaustive small universe: c15-model runs 20320 (203200) configurations — 0..12 hosts with partial/overlapping metadata over 3 keys x 3 values, all 127 selector sets x 3 fallback policies, default subsets incl. unmatched — each against 190 criteria (every key absent/x/y/z/unknown, unknown keys, nil); c15-exh enumerates completely a 2-key x 2-value universe (all host multisets up to 3 (5) shapes, all selector sets incl. empty selectors, policies, default subsets, 34 criteria). Both real builders are judged against the model and against each other; answer sets are collected over 8*|S| round-robin picks.",
     "note": "All hosts healthy (health is C05). Nil/typed-nil criteria and empty criteria with an empty selector are judged by the builder differential only (statement leaves them open). Trusts router.NewMetadataMatchCriteriaImpl for building sorted criteria.",
 }
+
+META["C08"] = {
+    "engine": "vworker",
+    "design_ref": "DESIGN.md §3 C08",
+    "technique": "hostile-input monitors: recover() around the real decoders and the real stream-connection Dispatch, progress watchdog, heap-allocation meter (runtime/metrics), checkptr/bounds via the -race build, process-fatal attribution to the last logged input; probe-client liveness through a running proxy",
+    "text": "Exploration with an exhaustive corruption grid: per codec 12 (60) valid base frames x {every offset of the first 96 bytes x width 1/2/4 x value 0,1,2,3,max,max/2,orig+-1; all 256 values of each of the first 32 bytes; truncation at every offset; 40 splices} + random inputs (3.6e5 inputs quick) go through XProtocol.Decode, the matcher and the real xprotocol stream connection (race build => checkptr). HTTP/2: valid connection streams built with x/net/http2 corrupted the same way plus per-frame length/type/flags/stream-id grids and a CONTINUATION flood, through the real HTTP/2 server stream connection; the HPACK decoder alone on corrupted blocks (1.2e6 inputs quick). Violations: a panic escaping, a call that never returns (20 s without progress), allocation beyond 64x input + 4 MiB for one call, 'need more' that consumed bytes, a frame that consumed nothing, any process-fatal event.",
+    "note": "Inputs are written to disk (pwrite) before each call so a fatal is attributable. ASan/MSan/valgrind add nothing for pure-Go decoders and are not used. Third-party parsers (hessian, thrift, TarsGo) are inside the judged calls because MOSN's decoders delegate to them.",
+}
